@@ -359,6 +359,10 @@ def iter_elems(sx, v, st, node):
             raise Unsupported("iteration over object %r" % (v.ty,), node)
         v = c
     t = v.ty
+    if isinstance(t, V.Opt):
+        if sx.spec_mode or not sx.feasible(st, t.is_none(v.term)):
+            return iter_elems(sx, Val(t.inner, t.get(v.term)), st, node)
+        raise Unsupported("iteration over a value that may be None", node)
     if isinstance(t, V.List):
         return ("list", v)
     if isinstance(t, V.Tuple):
@@ -541,7 +545,15 @@ def _float(sx, args, kw, st, node):
     raise Unsupported("float() of %r" % (v.ty,), node)
 
 
+def _chr(sx, args, kw, st, node):
+    v = z3.simplify(sx.lift(args[0]).term if isinstance(args[0], Conc) else args[0].term)
+    if z3.is_int_value(v):
+        return ok(st, V.mk_str(chr(v.as_long())))
+    return ok(st, Val(V.Str, z3.StrFromCode(v)))
+
+
 BUILTIN_FUNCS = {
+    "chr": _chr,
     "dict": _dict_ctor,
     "float": _float,
     "len": _len,
@@ -845,6 +857,26 @@ def str_method(sx, obj, attr, args, kwargs, st, node):
         return ok(st, Val(V.Bytes, sx.reg.utf8(sx, s, st)))
     if attr == "replace":
         a, b = args[0], args[1]
+        s0, a0 = z3.simplify(s), z3.simplify(a.term)
+        if z3.is_string_value(s0) and z3.is_string_value(a0) and a0.as_string():
+            # constant text and constant pattern: exact
+            import re as _re
+            dec = lambda x: _re.sub(r"\\u\{([0-9a-fA-F]+)\}", lambda mm: chr(int(mm.group(1), 16)), x.as_string())
+            parts = dec(s0).split(dec(a0))
+            terms = []
+            for i, p_ in enumerate(parts):
+                if i:
+                    terms.append(b.term)
+                    remember_class(b.term, sx.str_class(b, st))
+                if p_:
+                    terms.append(z3.StringVal(p_))
+            if not terms:
+                return ok(st, Val(t, z3.StringVal("")))
+            r = Val(t, z3.Concat(*terms) if len(terms) > 1 else terms[0])
+            cls = classes_of(sx, terms, st)
+            if not sx.spec_mode and len(terms) > 1:
+                sx.with_class(r, z3.Concat(*cls), st)
+            return ok(st, r)
         r = sx.fresh(t, "repl", st)
         f = sx.reg.ufun("str_replace_all", [z3.StringSort()] * 3, z3.StringSort())
         st.assume(r.term == f(s, a.term, b.term))
@@ -857,8 +889,54 @@ def str_method(sx, obj, attr, args, kwargs, st, node):
         return ok(st, r)
     if attr == "isalnum":
         return ok(st, Val(V.Bool, z3.Bool(fresh_name("isalnum"))))
+    if attr == "format" and not kwargs:
+        f0 = z3.simplify(s)
+        if z3.is_string_value(f0):
+            import re as _re
+            text = _re.sub(r"\\u\{([0-9a-fA-F]+)\}", lambda mm: chr(int(mm.group(1), 16)), f0.as_string())
+            pieces = text.split("{}")
+            if len(pieces) == len(args) + 1 and "{" not in "".join(pieces) and "}" not in "".join(pieces):
+                terms, cur = [], st
+                for i, pc_ in enumerate(pieces):
+                    if pc_:
+                        terms.append(z3.StringVal(pc_))
+                    if i < len(args):
+                        rs = _str(sx, [args[i]], {}, cur, node)
+                        if len(rs) != 1 or rs[0].exc is not None:
+                            raise Unsupported("str.format argument", node)
+                        remember_class(rs[0].val.term, sx.str_class(rs[0].val, cur))
+                        terms.append(rs[0].val.term)
+                cls = classes_of(sx, terms, cur)
+                r = Val(t, z3.Concat(*terms) if len(terms) > 1 else terms[0])
+                if not sx.spec_mode:
+                    sx.with_class(r, z3.Concat(*cls) if len(cls) > 1 else cls[0], cur)
+                return [R(cur, r)]
     if attr == "join":
         m = sx.reg.join_model(sx, obj, args[0], st, node)
+        declared = None
+        if m is None and isinstance(node, ast.Call) and node.args and isinstance(node.args[0], ast.Name):
+            declared = (getattr(sx.unit, "elem_classes", None) or {}).get(node.args[0].id)
+        if m is None and declared is not None and not sx.spec_mode:
+            # the sidecar declares the language of the elements of this local: checked here, then used for the result
+            cname, cre = declared
+            coll = sx.deref(args[0], st)
+            sepc = sx.str_class(obj, st)
+            if isinstance(coll.ty, V.List):
+                i = z3.Int("jc_i")
+                claim = z3.ForAll([i], z3.Implies(z3.And(i >= 0, i < coll.ty.n(coll.term)), z3.InRe(coll.ty.at(coll.term, i), cre)))
+                nonempty = coll.ty.n(coll.term) > 0
+            elif isinstance(coll.ty, V.Set):
+                x = z3.String("jc_x")
+                claim = z3.ForAll([x], z3.Implies(z3.Select(coll.term, x), z3.InRe(x, cre)))
+                nonempty = sx.set_nonempty(coll, st)
+            else:
+                raise Unsupported("join of %r" % (coll.ty,), node)
+            sx.oblige(st, "%s/join:%s:elements-in-%s" % (sx.cur_func, node.args[0].id, cname), claim, "hole", node)
+            r = sx.fresh(t, "joined", st)
+            st.assume(z3.Implies(z3.Not(nonempty), r.term == z3.StringVal("")))
+            sx.with_class(r, z3.Option(z3.Concat(cre, z3.Star(z3.Concat(sepc, cre)))), st)
+            st.assume(z3.Implies(nonempty, z3.InRe(r.term, z3.Concat(cre, z3.Star(z3.Concat(sepc, cre))))))
+            return [R(st, r)]
         if m is None:
             # default: an otherwise unconstrained string (empty for an empty sequence)
             r = sx.fresh(t, "joined", st)
